@@ -16,7 +16,7 @@ Definition mkb (x : xtable) (d : cdump) : bstate :=
 
 Inductive obs2 := Obs2
   (pre : xtable) (pred : cdump)                 (* before the step *)
-  (o : bop)
+  (o : option bop)                              (* None = an operation outside the modelled alphabet (rstrip, transpose, ...): no model step *)
   (post : xtable) (postd : cdump) (raised : bool) (out : bans)     (* the live object right after the step; answer of a read step *)
   (twin : xtable) (twin_raised : bool) (twin_out : bans)            (* the same call on Element.from_tag(pre.serialize()) *)
   (live fresh : list (bread * bans))            (* observation reads on the live object / on a fresh parse of post *)
@@ -89,12 +89,15 @@ Definition chk_c02 (vcl : Z -> Z) (ob : obs2) : nat :=
     | S k => (31 + k)%nat
     | O =>
       if raised then 0%nat
-      else if negb (match o with BRead q => gans_eqb vcl (gb_read g q) (proj out) | _ => true end && reads_spec vcl g live) then 4%nat
+      else if negb (match o with Some (BRead q) => gans_eqb vcl (gb_read g q) (proj out) | _ => true end && reads_spec vcl g live) then 4%nat
       else if negb (bans_eqb out tout && reads_eqb live fresh) then 6%nat
       else if negb (match reload with
                     | None => true
                     | Some (x, rl) => in_fragment x && tstate_eqb (to_tstate x) (to_tstate post) && reads_eqb live rl end) then 7%nat
       else
+        match o with
+        | None => 0%nat
+        | Some o =>
         let want := match o with
                     | BMut m => g_step (abs_t (to_tstate pre)) m
                     | BRead _ => abs_t (to_tstate pre)
@@ -103,4 +106,5 @@ Definition chk_c02 (vcl : Z -> Z) (ob : obs2) : nat :=
         else
           let '(bm, am) := tB_step (mkb pre pred) o in
           if bstate_eqb bm bpost && match o with BRead (RQ _) => gans_eqb vcl (proj am) (proj out) | BRead _ => bans_eqb am out | _ => true end then 0%nat else 9%nat
+        end
     end end.
